@@ -360,6 +360,14 @@ def run_case(case, drv):
     ri['ops_json'] = [problem_json(o) for o in ri['op'].ops]
     m = drv.ok(request(case, ri, project=False))
     st['disagreements'] += compare(case, ri, m)
+    # every nodal restriction of every interval must have its price in the reported table (a missing cell is a failing input by
+    # itself: the price of a node in a step with a nodal restriction is not reported at all)
+    for o in ri['op'].ops:
+        for (t, n) in o.map_nodal_restr:
+            if (int(t), str(n)) not in ri['cells']:
+                st['violations'].append({'oracle': 'split_price_gap', 'detail': 'the price table of the split run reports no price (NaN / no cell) for node %s in step %d although the nodal restriction of that node and step exists' % (n, int(t)),
+                                         'facts': {'what': 'missing_cell', 'node': str(n), 'step': int(t)}})
+                return st, ri
     mp = drv.ok(request(case, ri, project=True))
     ubs = [Fraction(v) for v in mp['ubs']]
     if Fraction(mp['ub']) != sum(ubs, Fraction(0)):
